@@ -37,6 +37,13 @@ type Case struct {
 	// around the transaction itself; without it only the plan's own `PRAGMA foreign_keys = off/on`
 	// wrapper protects the children of a rebuilt parent table on an enforcing (`_fk=1`) connection.
 	Tx string `json:"tx,omitempty"`
+	// Flex populates with storage classes that do not match the declared types (sqlm.PopulateFlex:
+	// "all" = every free column of an ordinary table, "any" = columns declared ANY only).
+	Flex string `json:"flex,omitempty"`
+	// Pre, when set, is created first (by Atlas) and then migrated to A by Atlas before the rows are
+	// stored: a two-step history. Columns A adds to a table of Pre are appended physically by ALTER
+	// TABLE wherever A lists them, so the physical column order differs from the schema's.
+	Pre *sqlm.Schema `json:"pre,omitempty"`
 }
 
 // Outcome is what one execution showed.
@@ -271,12 +278,19 @@ func head(r [][]string) [][]string {
 	return r
 }
 
-func setup(ctx context.Context, path string, p sqlm.Pair) string {
+func setup(ctx context.Context, path string, cs Case) string {
+	p := cs.Pair
 	sqlm.RemoveDB(path)
-	if p.Mode == "atlas" || p.Mode == "" {
+	if p.Mode == "atlas" || p.Mode == "" || cs.Pre != nil {
 		db, err := sqlm.OpenDB(path)
 		if err != nil {
 			return err.Error()
+		}
+		if cs.Pre != nil {
+			if r := sqlm.Apply(ctx, db, *cs.Pre); !r.OK() {
+				db.Close()
+				return "setup-apply-pre " + r.Stage + ": " + r.Err
+			}
 		}
 		r := sqlm.Apply(ctx, db, p.A)
 		db.Close()
@@ -302,10 +316,14 @@ func setup(ctx context.Context, path string, p sqlm.Pair) string {
 		return "facts: " + err.Error()
 	}
 	// the known inspector defects do not matter here: the facts reader is independent of them
-	if d := sqlm.DiffFacts(p.A.Facts(), got); len(d) > 0 {
+	var ignore []string
+	if cs.Pre != nil {
+		ignore = []string{"colorder"} // the point of a two-step history
+	}
+	if d := sqlm.DiffFacts(p.A.Facts(), got, ignore...); len(d) > 0 {
 		return "setup-facts: " + strings.Join(d, "; ")
 	}
-	if err := sqlm.Populate(path, p.A, p.Rows); err != nil {
+	if err := sqlm.PopulateFlex(path, p.A, p.Rows, cs.Flex); err != nil {
 		return "populate: " + err.Error()
 	}
 	return ""
@@ -344,7 +362,7 @@ func branches(cs Case, plan []string) []string {
 func runPair(ctx context.Context, atlas, dir string, cs Case) (o Outcome) {
 	os.MkdirAll(dir, 0o755)
 	path := filepath.Join(dir, "f.db")
-	if why := setup(ctx, path, cs.Pair); why != "" {
+	if why := setup(ctx, path, cs); why != "" {
 		o.Inconclusive = why
 		return
 	}
@@ -454,7 +472,7 @@ func (m *monitor) keyFor(ctx context.Context, dir string, cs Case, atom string) 
 			return false
 		}
 		b, _ := json.Marshal(p)
-		mk := atom + "\x00" + fmt.Sprint(cs.CLI) + cs.Tx + string(b)
+		mk := atom + "\x00" + fmt.Sprint(cs.CLI, cs.Pre != nil) + cs.Tx + cs.Flex + string(b)
 		if v, ok := m.memo.Load(mk); ok {
 			return v.(bool)
 		}
@@ -470,8 +488,16 @@ func (m *monitor) keyFor(ctx context.Context, dir string, cs Case, atom string) 
 		budget = 80
 	}
 	min, runs := sqlm.Shrink(cs.Pair, still, budget)
-	f := min.Features()
+	f := min.FeaturesExt()
 	f = slices.DeleteFunc(f, func(s string) bool { return s == "rows" })
+	if cs.Flex != "" {
+		f = append(f, "flex-values:"+cs.Flex)
+		sort.Strings(f)
+	}
+	if cs.Pre != nil {
+		f = append(f, "two-step-history")
+		sort.Strings(f)
+	}
 	if cs.Tx == "none" {
 		// does the failure need the missing transaction?
 		c2 := cs
@@ -511,6 +537,14 @@ func (m *monitor) evaluate(ctx context.Context, dir string, cs Case) Outcome {
 		return o
 	}
 	safe, _ := sqlm.DataSafe(cs.A, cs.B)
+	if cs.Flex == "all" || cs.Src == "new-prefix" {
+		// mismatching storage classes may legitimately be refused (STRICT); a table called new_<t>
+		// makes the unpatched planner's temporary name collide: refusal is the expected outcome
+		safe = false
+	}
+	if cs.Flex != "" {
+		c.Count("flex:"+cs.Flex, 1)
+	}
 	if safe {
 		m.safeN.Add(1)
 	}
@@ -565,7 +599,7 @@ func (m *monitor) evaluate(ctx context.Context, dir string, cs Case) Outcome {
 		rc.Pair = min
 		rc.Name = cs.Name + " [shrunk]"
 		so := runPair(ctx, c.Atlas, filepath.Join(dir, "case"), rc)
-		what := fmt.Sprintf("%s: %s (pair %q; shrunk to features %v)", leg, atom, cs.Name, min.Features())
+		what := fmt.Sprintf("%s: %s (pair %q; shrunk to features %v)", leg, atom, cs.Name, min.FeaturesExt())
 		c.Violation(key, what, rc, map[string]any{"original": cs, "atoms": o.Atoms, "outcome": o, "shrunk_outcome": so, "shrunk_hcl_current": min.A.HCL(), "shrunk_hcl_desired": min.B.HCL()})
 	}
 	return o
@@ -746,6 +780,13 @@ func workload(c *rt.Ctx) []Case {
 		add(cs)
 	}
 	c.Count("fk-wrapper-cases", int64(len(fkw)))
+	// 4b. fixed cases (identical at every seed): a user table called new_<t> next to a rebuilt <t>;
+	// physical column order != schema column order followed by a rebuild for a non-column reason;
+	// storage classes that do not match the declared types (flexible typing, ANY) across edits
+	fixed := append(append(newPrefixCases(pool, modes), colOrderCases(pool, modes)...), flexCases(pool, modes, c.Quick())...)
+	for _, cs := range fixed {
+		add(cs)
+	}
 	// 5. CLI sample
 	if c.Atlas != "" {
 		r = c.Rand(5)
@@ -763,6 +804,15 @@ func workload(c *rt.Ctx) []Case {
 		for _, i := range ix {
 			cs := cases[i]
 			cs.CLI = true
+			cs.Name = "cli:" + cs.Name
+			cases = append(cases, cs)
+		}
+		for i, cs := range fixed {
+			if cs.Src == "flex" && i%10 != 0 {
+				continue
+			}
+			cs.CLI = true
+			cs.Rows = rows
 			cs.Name = "cli:" + cs.Name
 			cases = append(cases, cs)
 		}
@@ -889,4 +939,156 @@ func run(c *rt.Ctx) {
 		fmt.Fprintf(os.Stderr, "C05 monitor broken: copy branches never exercised: %v (rebuild plans %d, alter plans %d, compared columns %d)\n", missing, m.rebuilds.Load(), m.alter.Load(), m.compared.Load())
 		os.Exit(4)
 	}
+}
+
+// rebuildBy returns b with a named CHECK added to the table (the plainest change that forces the
+// copy path and is compatible with any data Populate stores).
+func rebuildBy(b sqlm.Schema, table string) (sqlm.Schema, bool) {
+	for _, e := range sqlm.Neighbourhood(b) {
+		if e.Table == table && e.Kind == "check.add.named" {
+			return e.Apply(b), true
+		}
+	}
+	return b, false
+}
+
+// newPrefixCases: the database holds <t> and a populated user table new_<t> (present in current and
+// desired, not edited); the change set rebuilds <t>. new_<t> must be untouched — the planner may
+// refuse (its temporary table has the same name), it must not sacrifice the user's table.
+func newPrefixCases(pool []sqlm.PoolEntry, modes []string) []Case {
+	var out []Case
+	n := 0
+	for _, pe := range pool {
+		if pe.Name == "all" || pe.Name == "typed" {
+			continue
+		}
+		t := pe.S.Tables[0].Name
+		a := pe.S.Clone()
+		a.Tables = append(a.Tables, sqlm.Table{Name: "new_" + t, Cols: []sqlm.Col{{Name: "id", Type: "integer"}, {Name: "note", Type: "text", Null: true}, {Name: "amount", Type: "real", Null: true}}, PK: []string{"id"},
+			Idx: []sqlm.Idx{{Name: "new_" + t + "_note", Parts: []sqlm.Part{{Col: "note"}}}}})
+		if a.Validate() != nil {
+			continue
+		}
+		b, ok := rebuildBy(a, t)
+		if !ok {
+			continue
+		}
+		for k := 0; k < 2; k++ {
+			out = append(out, Case{Pair: sqlm.Pair{A: a, B: b, Mode: modes[n%len(modes)]}, Name: fmt.Sprintf("new-prefix:%s/%s+new_%s", pe.Name, t, t), Src: "new-prefix", Edits: []string{"check.add.named"}})
+			n++
+		}
+	}
+	return out
+}
+
+// colOrderCases: the physical column order of a table differs from the order in which the desired
+// schema lists the same columns — because the database was created from a differently ordered
+// definition (raw DDL or an older HCL), or because an earlier in-place ADD COLUMN appended a column the
+// schema lists in the middle (two-step history) — and the table is then rebuilt for a reason that has
+// nothing to do with columns (a CHECK is added).
+func colOrderCases(pool []sqlm.PoolEntry, modes []string) []Case {
+	var out []Case
+	n := 0
+	for _, pe := range pool {
+		if pe.Name == "all" {
+			continue
+		}
+		for ti, t := range pe.S.Tables {
+			gen := false
+			for _, c := range t.Cols {
+				gen = gen || c.Gen != nil
+			}
+			if len(t.Cols) < 3 {
+				continue
+			}
+			for v := 0; v < 2; v++ {
+				b := pe.S.Clone()
+				cols := b.Tables[ti].Cols
+				if v == 0 { // last column listed second
+					last := cols[len(cols)-1]
+					copy(cols[2:], cols[1:len(cols)-1])
+					cols[1] = last
+				} else { // everything but the first column reversed
+					for i, j := 1, len(cols)-1; i < j; i, j = i+1, j-1 {
+						cols[i], cols[j] = cols[j], cols[i]
+					}
+				}
+				if b.Validate() != nil {
+					continue
+				}
+				bb, ok := rebuildBy(b, t.Name)
+				if !ok {
+					continue
+				}
+				name := fmt.Sprintf("col-order%d:%s/%s", v, pe.Name, t.Name)
+				out = append(out, Case{Pair: sqlm.Pair{A: pe.S, B: bb, Mode: modes[n%len(modes)]}, Name: name, Src: "col-order", Edits: []string{"col.reorder", "check.add.named"}})
+				n++
+				// two-step history: the table first exists without its last column; A (= the permuted
+				// listing, last column in the middle) is reached by ALTER TABLE ADD COLUMN, which appends
+				if v == 0 && !gen {
+					lastName := t.Cols[len(t.Cols)-1].Name
+					if len(t.ColUses(lastName)) == 0 && len(pe.S.ReferencedBy(t.Name, lastName, true)) == 0 && (t.Cols[len(t.Cols)-1].Null || t.Cols[len(t.Cols)-1].Default != nil) {
+						pre := b.Clone()
+						pt := pre.Table(t.Name)
+						pt.Cols = slices.DeleteFunc(pt.Cols, func(c sqlm.Col) bool { return c.Name == lastName })
+						if pre.Validate() == nil {
+							out = append(out, Case{Pair: sqlm.Pair{A: b, B: bb, Mode: "atlas"}, Pre: &pre, Name: name + " (two-step: ADD COLUMN appended)", Src: "col-order", Edits: []string{"col.reorder", "check.add.named"}})
+						}
+					}
+				}
+			}
+		}
+	}
+	return out
+}
+
+// flexSchema holds two ordinary tables whose columns can take any storage class: flexm (INT, TEXT,
+// REAL, BLOB columns that will hold mismatching values) and flexa (an ANY column next to well-typed
+// ones, so that turning the table STRICT is legitimate and must keep every value).
+func flexSchema() sqlm.Schema {
+	n := func(name, typ string) sqlm.Col { return sqlm.Col{Name: name, Type: typ, Null: true} }
+	return sqlm.Schema{Tables: []sqlm.Table{
+		{Name: "flexm", Cols: []sqlm.Col{{Name: "id", Type: "integer"}, n("n", "int"), n("t", "text"), n("r", "real"), n("b", "blob"), n("m", "int")}, PK: []string{"id"},
+			Idx: []sqlm.Idx{{Name: "flexm_m", Parts: []sqlm.Part{{Col: "m"}}}}},
+		{Name: "flexa", Cols: []sqlm.Col{{Name: "id", Type: "integer"}, n("a", "ANY"), n("t", "text"), n("a2", "ANY")}, PK: []string{"id"}},
+	}}
+}
+
+// flexCases: every single edit of flexSchema on data with mismatching storage classes ("all") and on
+// data where only the ANY columns hold foreign classes ("any"), plus the STRICT toggle and a rebuild
+// of those pool tables whose types STRICT admits. Judged like every other case: the plan fails and
+// leaves everything unchanged, or every surviving value is identical under quote().
+func flexCases(pool []sqlm.PoolEntry, modes []string, quick bool) []Case {
+	var out []Case
+	fs := flexSchema()
+	n := 0
+	for i, e := range sqlm.Neighbourhood(fs) {
+		important := e.Kind == "table.strict.toggle" || e.Kind == "table.without-rowid.toggle" || e.Kind == "check.add.named" || e.Kind == "col.drop" || e.Kind == "col.add.null"
+		if quick && !important && i%3 != 0 {
+			continue
+		}
+		for _, flex := range []string{"all", "any"} {
+			if flex == "any" && e.Table != "flexa" {
+				continue
+			}
+			out = append(out, Case{Pair: sqlm.Pair{A: fs, B: e.Apply(fs), Mode: modes[n%len(modes)]}, Flex: flex, Name: fmt.Sprintf("flex-%s:%s", flex, e), Src: "flex", Edits: []string{e.Kind}})
+			n++
+		}
+	}
+	for _, pe := range pool {
+		if pe.Name == "all" {
+			continue
+		}
+		for _, e := range sqlm.Neighbourhood(pe.S) {
+			if e.Kind != "table.strict.toggle" && e.Kind != "check.add.named" {
+				continue
+			}
+			if t := pe.S.Table(e.Table); t == nil || t.Strict {
+				continue
+			}
+			out = append(out, Case{Pair: sqlm.Pair{A: pe.S, B: e.Apply(pe.S), Mode: modes[n%len(modes)]}, Flex: "all", Name: fmt.Sprintf("flex-all:%s/%s", pe.Name, e), Src: "flex", Edits: []string{e.Kind}})
+			n++
+		}
+	}
+	return out
 }
